@@ -64,6 +64,8 @@ package outlier
 //@   ensures[filtered-reject] forall j Int :: 0 <= j && j < len(filters) ==> has(nodes, filters[j]) && rejects(nodes[filters[j]])
 //@   ensures[outliers-reject] forall j Int :: 0 <= j && j < len(outliers) ==> has(nodes, outliers[j]) && rejects(nodes[outliers[j]])
 //@   ensures[half-open-are-passive-probes] forall j Int :: 0 <= j && j < len(halfs) ==> has(nodes, halfs[j]) && !rejects(nodes[halfs[j]]) && !rule.EnableActiveRecovery
+//@   ensures[half-open-is-the-state-after-the-probe] forall j Int :: 0 <= j && j < len(halfs) ==> sel(gStateAfterTry, dynptr(nodes[halfs[j]])) == circuitbreaker.HalfOpen
+//@   ensures[every-passive-probe-is-reported-half-open] forall a Str :: has(nodes, a) && !rejects(nodes[a]) && !rule.EnableActiveRecovery && sel(gStateAfterTry, dynptr(nodes[a])) == circuitbreaker.HalfOpen ==> (exists j Int :: 0 <= j && j < len(halfs) && halfs[j] == a)
 //@   loop 1:
 //@     invariant[share-bound] len(filters) <= floor(R(n) * rule.MaxEjectionPercent)
 //@     invariant[fresh-lists] (cap(filters) == 0 || fresh(base(filters))) && (cap(outliers) == 0 || fresh(base(outliers))) && (cap(halfs) == 0 || fresh(base(halfs)))
@@ -73,6 +75,9 @@ package outlier
 //@     invariant[half-open-known] forall j Int :: 0 <= j && j < len(halfs) ==> has(nodes, halfs[j]) && sel(#seen, halfs[j])
 //@     invariant[half-open-passing] forall j Int :: 0 <= j && j < len(halfs) ==> !rejects(nodes[halfs[j]])
 //@     invariant[half-open-passive] len(halfs) > 0 ==> !rule.EnableActiveRecovery
+//@     invariant[half-open-state] forall j Int :: 0 <= j && j < len(halfs) ==> sel(gStateAfterTry, dynptr(nodes[halfs[j]])) == circuitbreaker.HalfOpen
+//@     invariant[half-open-complete] forall a Str :: sel(#seen, a) && has(nodes, a) && !rejects(nodes[a]) && !rule.EnableActiveRecovery && sel(gStateAfterTry, dynptr(nodes[a])) == circuitbreaker.HalfOpen ==> (exists j Int :: 0 <= j && j < len(halfs) && halfs[j] == a)
+//@     invariant[probed-are-the-seen] forall a Str :: has(nodes, a) && !sel(#seen, a) ==> sel(gLastTry, dynptr(nodes[a])) == sel(old(gLastTry), dynptr(nodes[a])) && sel(gStateAfterTry, dynptr(nodes[a])) == sel(old(gStateAfterTry), dynptr(nodes[a]))
 //@     invariant[registry-untouched] nodeBreakers[ctx.Resource.name] == nodes && outlierRules[ctx.Resource.name] == rule
 
 // the slot hands exactly this request's lists to the caller: the filter list of the (pooled, reused) rule-check result is
